@@ -21,7 +21,8 @@ func init() {
 			"C11.inv: substituting those seven abstract bytes for data[0..6] in UnmarshalBinary yields the identity on every field modulo 2^32 / 2^8 (calendar guard folded through the New summary). " +
 			"C11.strict: decision table over the orderings (len ? 0, data[0] ? version, len ? 7), each −1/0/1 so that a test written with < or > is tabulated too: the failing valuations return errors wrapping ErrInvalidLength, ErrUnsupportedVersion, ErrInvalidLength; all field stores are dominated by the guards; ErrInvalidDate on a leaf whose byte orderings put the month outside 1..12 or the day outside 1..31 is the calendar guard's own answer (a range pre-check). " +
 			"C11.range: every store into Date.month/Date.day in the package stores a component of time.Time.Date() minus one, the constant 0 under t.IsZero(), or a decoded byte that passed a calendar-validity guard." +
-			" Added after the second rule audit: a whole Date loaded through a pointer converted from another struct type is of unrecognised origin; C11.wrap looks into Unwrap bodies (each return is the error field of the receiver).",
+			" Added after the second rule audit: a whole Date loaded through a pointer converted from another struct type is of unrecognised origin; C11.wrap looks into Unwrap bodies (each return is the error field of the receiver)." +
+			" A writer that takes a destination buffer (an AppendBinary behind MarshalBinary) is held to C16's append-only and independence rules under C11.wire.",
 		NotDecided:  []string{"nothing value-level beyond the time.Date summary"},
 		Assumptions: []string{"time.Date is the identity on in-range components; Time.Date() returns a real calendar date"},
 		Technique:   "bit-provenance/affine abstract interpretation, decision-table extraction and dominator rules over go/ssa",
